@@ -14,7 +14,7 @@ GInit == Init /\ hist = <<>>
 Lbl(l) == hist' = Append(hist, l)
 GNext == \/ /\ kq # <<>> /\ Handle /\ UNCHANGED hist                                   \* internal steps first
          \/ /\ kq = <<>> /\ steps < GenSteps
-            /\ \/ \E p \in Paths : \/ Add(p) /\ Lbl(<<"add", p>>)
+            /\ \/ \E p \in Paths : \/ Add(p, TRUE) /\ Lbl(<<"add", p>>)
                                    \/ Remove(p) /\ Lbl(<<"remove", p>>)
                                    \/ Unlink(p) /\ Lbl(<<"unlink", p>>)
                                    \/ MoveAway(p) /\ Lbl(<<"moveaway", p>>)
